@@ -58,6 +58,10 @@ pub struct Opts {
     pub warmup: usize,
     /// after `pre2.1` processing calls: set_resample_ratio_relative(pre2.0, false)
     pub pre2: Option<(f64, usize)>,
+    /// two-channel configuration: channel 1 is masked out and supplied with empty slices in
+    /// every call, and the frames left at the end of `x` are handed to
+    /// process_partial_into_buffer(Some([rest, empty]))
+    pub masked_tail: bool,
 }
 
 pub fn resample_all_x<T: Flt>(cfg: &Cfg, x: &[f64], opts: &Opts) -> Result<Streamed, String> {
@@ -111,14 +115,25 @@ pub fn resample_all_x<T: Flt>(cfg: &Cfg, x: &[f64], opts: &Opts) -> Result<Strea
     let mut ibuf: Vec<Vec<T>> = vec![Vec::new(); n];
     let mut calls = Vec::new();
     let mut delay_changed: Option<(usize, usize)> = None;
+    let mask_v = [true, false];
+    let mask: Option<&[bool]> = if opts.masked_tail {
+        if n != 2 {
+            return Err("masked_tail needs a two-channel configuration".into());
+        }
+        Some(&mask_v)
+    } else {
+        None
+    };
     loop {
         let need = r.input_frames_next();
         if pos + need > x.len() {
             break;
         }
-        for ch in ibuf.iter_mut() {
+        for (c, ch) in ibuf.iter_mut().enumerate() {
             ch.clear();
-            ch.extend(x[pos..pos + need].iter().map(|v| T::from64(*v)));
+            if !(opts.masked_tail && c == 1) {
+                ch.extend(x[pos..pos + need].iter().map(|v| T::from64(*v)));
+            }
         }
         let want = r.output_frames_next();
         for ch in obuf.iter_mut() {
@@ -127,7 +142,7 @@ pub fn resample_all_x<T: Flt>(cfg: &Cfg, x: &[f64], opts: &Opts) -> Result<Strea
             }
         }
         let (i, o) = r
-            .process_into_buffer(&ibuf, &mut obuf, None)
+            .process_into_buffer(&ibuf, &mut obuf, mask)
             .map_err(|e| format!("process_into_buffer failed at input frame {}: {}", pos, e))?;
         out.extend(obuf[0][..o].iter().map(|v| v.to64()));
         calls.push((i, o));
@@ -145,6 +160,23 @@ pub fn resample_all_x<T: Flt>(cfg: &Cfg, x: &[f64], opts: &Opts) -> Result<Strea
         if i == 0 && o == 0 {
             return Err("no progress".into());
         }
+    }
+    if opts.masked_tail && pos < x.len() {
+        ibuf[0].clear();
+        ibuf[0].extend(x[pos..].iter().map(|v| T::from64(*v)));
+        ibuf[1].clear();
+        let want = r.output_frames_next();
+        for ch in obuf.iter_mut() {
+            if ch.len() < want {
+                ch.resize(want, T::from64(0.0));
+            }
+        }
+        let (_, o) = r
+            .process_partial_into_buffer(Some(&ibuf), &mut obuf, mask)
+            .map_err(|e| format!("process_partial_into_buffer failed at input frame {}: {}", pos, e))?;
+        out.extend(obuf[0][..o].iter().map(|v| v.to64()));
+        calls.push((x.len() - pos, o));
+        pos = x.len();
     }
     Ok(Streamed {
         out,
